@@ -38,6 +38,7 @@ pub struct Ctx {
     max_violation_files: usize,
     seen_viol_sigs: HashSet<String>,
     pub sig_tally: BTreeMap<String, u64>,
+    pub known_sig_tally: BTreeMap<String, u64>,
 }
 
 fn load_findings() -> Vec<Finding> {
@@ -86,6 +87,7 @@ impl Ctx {
             max_violation_files: 8,
             seen_viol_sigs: HashSet::new(),
             sig_tally: BTreeMap::new(),
+            known_sig_tally: BTreeMap::new(),
         }
     }
     pub fn quick(&self) -> bool {
@@ -130,6 +132,10 @@ impl Ctx {
         if let Some(f) = self.is_known(sig) {
             let id = f.id.clone();
             *self.known_hits.entry(id).or_insert(0) += 1;
+            // which concrete signatures the listed findings matched (bounded), so that a prefix entry shows what it hid
+            if self.known_sig_tally.len() < 400 || self.known_sig_tally.contains_key(sig) {
+                *self.known_sig_tally.entry(sig.to_string()).or_insert(0) += 1;
+            }
             return false;
         }
         self.count("violations_total", 1);
@@ -179,6 +185,7 @@ impl Ctx {
         }
         cov.insert("counters".into(), json!(self.counters));
         cov.insert("known_finding_hits".into(), json!(self.known_hits));
+        cov.insert("known_finding_signatures_observed".into(), json!(self.known_sig_tally));
         for (k, v) in self.extra.iter() {
             cov.insert(k.clone(), v.clone());
         }
